@@ -14,21 +14,25 @@ namespace Spec.Aes
 /-- m(x) = x^8 + x^4 + x^3 + x + 1 -/
 def mPoly : Nat := 0x11b
 
-/-- polynomial product over GF(2) of `a` with the low `n` bits of `b` (carry-less multiplication) -/
+/-- coefficient of x^i in the polynomial p (0 or 1) -/
+def coef (p i : Nat) : Nat := (p >>> i) % 2
+
+/-- polynomial product over GF(2) of `a` with the low `n` coefficients of `b`: Σ_{i<n} b_i · a · x^i (carry-less) -/
 def clmul (a b : Nat) : Nat → Nat
   | 0 => 0
-  | i + 1 => clmul a b i ^^^ (if b.testBit i then a <<< i else 0)
+  | i + 1 => clmul a b i ^^^ (coef b i * (a <<< i))
 
-/-- remainder modulo m(x) of a polynomial of degree < 8+n: cancel the coefficients of x^(8+n-1) … x^8 in turn -/
+/-- remainder modulo m(x) of a polynomial of degree < 8+n: cancel the coefficients of x^(8+n-1) … x^8 in turn
+    by adding that coefficient times m(x)·x^i -/
 def reduce (x : Nat) : Nat → Nat
   | 0 => x
-  | i + 1 => reduce (if x.testBit (8 + i) then x ^^^ (mPoly <<< i) else x) i
+  | i + 1 => reduce (x ^^^ (coef x (8 + i) * (mPoly <<< i))) i
 
 /-- multiplication in GF(2^8): the product of the two polynomials modulo m(x) (§4.2) -/
 def gfmul (a b : Nat) : Nat := reduce (clmul a b 8) 7
 
 /-- multiplication by x (§4.2.1): shift left, and subtract m(x) when the result has degree 8 -/
-def xtime (b : Nat) : Nat := if b.testBit 7 then (b <<< 1) ^^^ mPoly else b <<< 1
+def xtime (b : Nat) : Nat := (b <<< 1) ^^^ (coef b 7 * mPoly)
 
 /-- b^(2^k) by k squarings -/
 def gfsq (b : Nat) : Nat := gfmul b b
@@ -42,7 +46,7 @@ def gfinv (b : Nat) : Nat :=
 
 /-! ### S-box (§5.1.1) and inverse S-box (§5.3.2) -/
 
-def bit (x i : Nat) : Nat := if x.testBit i then 1 else 0
+def bit (x i : Nat) : Nat := coef x i
 
 /-- assemble a byte from its bits -/
 def ofBits (f : Nat → Nat) : Nat → Nat
